@@ -51,8 +51,17 @@ func runSolver(ctx context.Context, s solverSpec, file string, timeoutS int, see
 	dur = time.Since(t0).Seconds()
 	out = buf.String()
 	first := strings.TrimSpace(strings.SplitN(out, "\n", 2)[0])
-	if strings.Contains(out, "(error ") && !strings.Contains(out, "model is not available") {
-		return "error", out, dur
+	// errors BEFORE the check-sat answer mean the script was (partly) rejected; errors after it come from the trailing
+	// get-value on an unsat/unknown answer and are harmless
+	for _, ln := range strings.Split(out, "\n") {
+		t := strings.TrimSpace(ln)
+		if t == "sat" || t == "unsat" || t == "unknown" || t == "timeout" {
+			first = t
+			break
+		}
+		if strings.HasPrefix(t, "(error ") {
+			return "error", out, dur
+		}
 	}
 	switch first {
 	case "sat", "unsat", "unknown":
